@@ -485,7 +485,7 @@ func genE2E(t *rapid.T) e2eCase {
 	return c
 }
 
-var chkE2E = harness.Define("builder-device-extract", genE2E, runE2E)
+var chkE2E = harness.Define("builder-device-extract", genE2E, runE2E).Repeated(2)
 
 func TestRandom(t *testing.T) {
 	chkE2E.Rapid(t, harness.Pick(2500, 150000))
